@@ -204,6 +204,12 @@ func (s *Server) newPartition(protoPartition *proto.Partition, recovered bool, c
 		return nil, errors.Wrap(err, "failed to create commit log")
 	}
 
+	// Re-apply the readonly flag carried by the partition metadata, e.g. when
+	// the partition is restored from a snapshot or replaced on resume.
+	if protoPartition.Readonly {
+		log.SetReadonly(true)
+	}
+
 	replicas := make(map[string]struct{}, len(protoPartition.Replicas))
 	for _, replica := range protoPartition.Replicas {
 		replicas[replica] = struct{}{}
